@@ -592,7 +592,7 @@ FAILURE_PATH_SHARE = 0.25
 class C09(Property):
     id = "C09"
     title = "Sequence elements behave as Python lists of member elements"
-    proof_module = "Proofs.C09All"
+    proof_module = "Proofs.C09Rejected"
     theorems = [
         "Flatland.C09.Proofs.step_refines",
         "Flatland.C09.Proofs.run_refines",
@@ -604,6 +604,8 @@ class C09(Property):
         "Flatland.C09.Proofs.members_typed",
         "Flatland.C09.Proofs.items_eq_members",
         "Flatland.C09.Proofs.positional_step",
+        "Flatland.C09.Proofs.rejected_call_keeps_members",
+        "Flatland.C08.Proofs.rejected_seq_unchanged",
         "Flatland.Tree.setNode_indep",
         "Flatland.Tree.fromDefaults_indep",
         "Flatland.Tree.wrap_plain_ok",
@@ -637,7 +639,7 @@ class C09(Property):
                   "MultiValue) needs a non-MultiValue member schema whose re-fed values are accepted and NO MultiValue "
                   "nested inside a member (ImulDeep/noMulti: a MultiValue shows as (value,u) by its first member only, so "
                   "the reference list does not determine its copies) — automatic for Integer/String (imul_guard_scalar, "
-                  "imulDeep_scalar); with a MultiValue inside, *= is checked by correspondence and the value oracle only. positional_step — every call, every member schema. REFUTED reading: value-only "
+                  "imulDeep_scalar); with a MultiValue inside, *= is checked by correspondence and the value oracle only. positional_step — every call, every member schema. rejected_call_keeps_members (round h8) — a call on a rejection route (seqAtomic: all but extend/+=/*=/set/set_default, in-place `lst[i] = plain` with a valid index, key-less sort) that raises leaves members, slot names and parents exactly as they were, as a Python list is unchanged after IndexError/TypeError/ValueError; on the code: oracle clause rejected-changes-nothing (incl. non-integer indexes, failing sort keys, live members of a second sequence as arguments; KF-C09-d = KF-C08-b on the unchanged library). REFUTED reading: value-only "
                   "(C09_Full, KF-C09-a). ORACLE ONLY: set_flat/from_flat (values predicted for the simple key shapes only, "
                   "typing and positional naming always), set(<iterable containing Elements>) (KF-C09-c), *= with a "
                   "non-integer count (TypeError), the flags returned by set(list), model paths answering `unsupported` (= "
@@ -661,7 +663,12 @@ class C09(Property):
         "`*=` (Sequence.__imul__, commits 33a67e3 / 24425c6: fresh members from _replica_value(member); non-integer "
         "count raises TypeError) is modelled and compared, MultiValue and nested sequence members included; "
         "`+` and `*` return plain lists and are not element operations",
-        "re-inserting an element that is already a member (`l.append(l[0])`) is aliasing, outside the quantifier",
+        "re-inserting an element that is already a member (`l.append(l[0])`) is aliasing, outside the quantifier: since round "
+        "h8 such calls ARE generated (25 % of the histories, oracle only; live members of the root or of a second sequence of "
+        "the same class kept alive by the case). A REJECTED call must change nothing (members, parents, slot names of both "
+        "sequences) and raise what a Python list raises; after a SUCCESSFUL one the call itself is checked against the "
+        "reference (the element is where a list would have it), and while a member of the root is listed by two holders the "
+        "reference is resynchronised at every step and the positional clauses skip that member",
         "Element arguments are fresh or detached elements of the member schema (no aliasing)",
         "MultiValue.value is the first member's value (documented), the list clause is checked on iteration",
     ]
@@ -671,6 +678,7 @@ class C09(Property):
             "are plain values (valid, unadaptable, None), fresh Elements, or Elements detached earlier (pool); "
             "Cases the Lean model does not cover (set_flat/from_flat, model paths answering unsupported) are marked oracle-only before the run and are not counted as validated traces (tag model=oracle-only). "
             "Element arguments are read (root/path/parents/fq_name) before they are handed over in half of the cases; 'observe' steps only read. "
+            "25 % of the histories (tag fp:case, oracle only) exercise failure / recovery paths: a second sequence of the same class kept alive, calls aimed at it, live members as arguments, item assignment and insert with out-of-range and NON-INTEGER indexes ('1', None, 1.5), extended-slice size mismatches, items the member schema rejects, a sort key that raises on its second call, followed by calls that succeed. "
             "non-trivial = at least 3 calls changed the sequence or raised")
     quick_n = 40000
     thorough_n = 300000
@@ -710,6 +718,23 @@ class C09(Property):
         # open KF-C09-c: set() of an iterable that contains a ready-made Element
         out.append({"schema": _seq("list", I, name="l"), "init": {"route": "ctor", "value": None}, "nomodel": True,
                     "ops": [_op({"op": "set_mixed", "as": [{"new": 3}, {"v": 4}]})]})
+        # failure paths (round h8, oracle only): rejected item assignment / insert with a live member of a second List
+        # (seeded C08-setitem-reparents-before-index-check), non-integer indexes, a failing sort key, then success
+        lv = lambda tree, k: {"live": {"tree": tree, "k": k, "where": "any"}}
+        out.append({"schema": _seq("list", I, name="l"), "nomodel": True, "aux": [{"value": {"l": [10, 20]}}],
+                    "init": {"route": "ctor_value", "value": {"l": [1, 2, 3]}},
+                    "ops": [{"t": 0, "tt": 1, "s": {"op": "setitem", "i": 7, "a": lv(0, 2)}},
+                            {"t": 0, "tt": 1, "s": {"op": "setitem", "i": 0, "ix": "str", "a": lv(0, 1)}},
+                            _op({"op": "setitem", "i": 1, "ix": "none", "a": {"v": 5}}),
+                            _op({"op": "insert", "i": 1, "ix": "float", "a": {"new": 5}}),
+                            _op({"op": "sort", "key": "raise", "rev": False}),
+                            _op({"op": "setitem", "i": -4, "a": lv(1, 0)}),
+                            _op({"op": "append", "a": {"v": 4}}), _op({"op": "getitem", "i": 2})]})
+        # open KF-C09-d (= KF-C08-b): a rejected insert re-parents the live member of the other List
+        out.append({"schema": _seq("list", I, name="l"), "nomodel": True, "aux": [{"value": {"l": [10]}}],
+                    "init": {"route": "ctor_value", "value": {"l": [1, 2, 3]}},
+                    "ops": [{"t": 0, "tt": 1, "s": {"op": "insert", "i": 0, "ix": "str", "a": lv(0, 2)}},
+                            _op({"op": "append", "a": {"v": 4}})]})
         # past disagreements / edge shapes
         out.append({"schema": _seq("list", I), "init": {"route": "ctor_value", "value": {"l": [1, 2, 3, 4, 5]}},
                     "ops": [_op({"op": "setslice", "sl": [None, None, 2], "as": [{"v": 7}]}),
